@@ -232,3 +232,20 @@ PROPS["C06"] = {
     ),
     "note": "Agreement of every query answer with 'what the listed elements imply' for every history is value-level and not decided.",
 }
+
+PROPS["C07"] = {
+    "claimed": True,
+    "technique": "static analysis: decision-table extraction (bit constants, forbidden pairs under nested/elif bit tests, completion masks, predicate bits, converter dispatch) compared with the documented tables; regex AST sibling comparison",
+    "text": (
+        "Extracts, from the current source, the tables that make flag handling consistent and compares them: flag constants are distinct "
+        "single bits per hierarchy; the set of (A, B) pairs whose joint presence reaches a raise in the chained validators equals the "
+        "documented contradiction table (if/elif and sequential-raise chains are recognised as rejecting all pairs of the group, with "
+        "the soundness argument in DESIGN.md), including short-preference-without-short-name and the default rules of set_default; "
+        "completion masks are exactly the validator's exclusive groups and add a member of the group, MULTI_VALUED adds REQUIRED_VALUE; "
+        "each predicate tests its own bit; the type bit selects the matching converter with the NULLABLE bit, identically for options "
+        "and arguments; the name patterns of options, aliases and arguments are one pattern each (compared as parsed regex trees); the "
+        "boolean literal sets contain 'true'/'false'. This is a comparison of extracted tables, not an evaluation on flag words."
+    ),
+    "note": "Exhaustive behaviour over all 2^13 / 2^11 flag words and text->value round trips are execution/solver territory and not "
+            "decided; the converters' ValueError discipline is rule C02-R4.",
+}
